@@ -3,7 +3,8 @@
 Decided: every remote mutable write carries a non-empty test vector that pins
 the version the publisher saw, a rejected or surprising answer always ends in
 UncoordinatedWriteError, and modify() retries only on that error after a
-fresh survey (DESIGN.md section 5, C12)."""
+fresh survey; the test vector reaches the share comparison unweakened through
+every protocol hop (DESIGN.md section 5, C12)."""
 import builtins
 
 from sa.h import *
@@ -39,14 +40,31 @@ EXPLANATION = (
     "_modify_once returns the Deferred _apply is chained on, the callbacks registered in _modify_and_retry/_retry return "
     "the _modify_once/_modify_and_retry calls they make, and both functions return their Deferred on every path; (15) "
     "set_checkstring stores (0, len(cs), cs) only after cs is known non-empty (tested against b'' / truth / len, or "
-    "freshly struct.pack'ed), because (0, 0, b'') is satisfied by any share contents. "
-    "Undecided: the (writers+1)*k <= N recoverability arithmetic over interleavings, byte-level comparison inside "
-    "check_testv, wire conversion of the vectors (C31); exceptions other than unbound names raised inside "
+    "freshly struct.pack'ed), because (0, 0, b'') is satisfied by any share contents; (16) both IStorageServer adapters of "
+    "storage_client.py (Foolscap _StorageServer, HTTP _HTTPStorageServer) send, in the one call that names the storage "
+    "index, a mapping with exactly one unconditional entry per share number of tw_vectors, filed under that number, whose "
+    "test vector has exactly one unconditional element per element the writer gave, and that element carries the writer's "
+    "own offset, length and specimen (elements 0, 1, 2) in the places the far side reads them from - decided by evaluating "
+    "the method body (comprehensions, loops with append / item stores, locals, package-local helpers) to the shape of "
+    "the value it builds, so a length recomputed from the specimen, a filter, a slice or a constant is a violation and a "
+    "rewritten loop is not; (17) on the HTTP path the request body carries asdict() of every share's vectors under its "
+    "number, TestWriteVectors.asdict only renames fields, the handler mutable_read_test_write rebuilds for every share "
+    "of that body field one tuple per element of the share's test field, taking offset / size / specimen from that "
+    "element's own fields and putting them where check_testv reads them, and (16) matches the adapter's TestVector fields "
+    "against exactly those keys; FoolscapStorageServer.remote_slot_testv_and_readv_and_writev hands the vectors it received "
+    "to the storage server untouched; (18) MutableShareFile.check_testv walks over the whole test vector, compares "
+    "_read_share_data(f, offset, length) of the element's own offset / length with the element's specimen "
+    "(EmptyShare.check_testv: b''), testv_compare returns a == b on every path, after a failing comparison every "
+    "return gives False and a possibly-true value is returned only after the loop ran to its end. "
+    "Undecided: the (writers+1)*k <= N recoverability arithmetic over interleavings, what _read_share_data returns for a "
+    "given offset / length (container arithmetic), wire conversion of write vectors, read vectors, secrets and results and "
+    "CBOR / schema value-level behaviour (C31); exceptions other than unbound names raised inside "
     "_got_write_answer before the marking (they are swallowed by the DeferredList as well); which servermap mode the "
     "first/later attempts of modify() use and the new sequence number (value-level); that self._checkstring holds the "
     "checkstring the writers expect (a wrong value only produces spurious surprises); placement bookkeeping "
     "(goal/placed/bad_servers), leases and timing/status code.")
-TECHNIQUE = "static analysis: CFG path rules over normalised edge facts, reaching definitions, Deferred chain model, who-may-write sweeps"
+TECHNIQUE = ("static analysis: CFG path rules over normalised edge facts, reaching definitions, Deferred chain model, who-may-write "
+             "sweeps, abstract evaluation of the protocol hops to the shape of the vectors they build")
 
 PUB = "mutable.publish:Publish"
 SDMFW = "mutable.layout:SDMFSlotWriteProxy"
@@ -133,15 +151,29 @@ def _callable_info(idx, fn, target):
     return None
 
 
+def _copy_root(fnorm, n, e):
+    """Follow plain local copies (`tmp = x; .. tmp`) of a name back to the name copied."""
+    for _ in range(8):
+        d = fnorm.env_at(n).defs.get(e.id) if isinstance(e, ast.Name) else None
+        if not isinstance(d, ast.Name):
+            break
+        e = d
+    return e
+
+
 def _is_pass_through(idx, fn, target):
     """The callable returns its first argument on every normal path."""
     info = _callable_info(idx, fn, target)
     if info is None or info[1] is None:
         return False
     g, p = info
+    gnorm = FlowNorm(g)
 
     def ret_param(n):
-        return is_return(n) and isinstance(n.ast.value, ast.Name) and n.ast.value.id == p
+        if not is_return(n) or n.ast.value is None:
+            return False
+        v = _copy_root(gnorm, n, n.ast.value)
+        return isinstance(v, ast.Name) and v.id == p
     return not find_path_avoiding(g.cfg(), lambda n: n.kind == "exit", gate_node=ret_param, kill=stores(p))
 
 
@@ -419,6 +451,24 @@ def run(ctx: Context):
                   "((0, 0, b'') is satisfied by any share contents)", expected=2) as r:
         for q in (SDMFW, MDMFW):
             _nonempty_vector(r, idx.func(q + ".set_checkstring"))
+
+    # -- 16. the protocol adapters forward the test vectors as given --------------------
+    with ctx.rule("C12.16", "R5", "every IStorageServer adapter (Foolscap, HTTP) sends, for every share number of tw_vectors and "
+                  "under that number, one test vector element per element the writer gave, carrying the writer's own offset, "
+                  "length and specimen in the places the server reads them from", expected=2) as r:
+        _adapters_rule(r, idx)
+
+    # -- 17. the wire hops between adapter and storage server ---------------------------
+    with ctx.rule("C12.17", "R5", "HTTP: the request body carries asdict() of every share's vectors under its share number, the "
+                  "handler rebuilds one (offset, size, op, specimen) element per element sent, from that element's own fields, "
+                  "in the places check_testv reads; the Foolscap server object hands its vectors through untouched", expected=3) as r:
+        _wire_rule(r, idx)
+
+    # -- 18. what the server compares ----------------------------------------------------
+    with ctx.rule("C12.18", "R3", "check_testv compares, for every element of the test vector, `length` bytes read at `offset` "
+                  "(b'' for an absent share) with the element's specimen by whole equality, and returns False once one fails",
+                  expected=3) as r:
+        _consumer(idx, r)
 
 
 # --------------------------------------------------------------- rule bodies
@@ -1476,8 +1526,11 @@ def _modify_chain_returns(r, idx):
         raise AnchorVanished("_modify_and_retry._retry / _modify_once._apply")
     lost = "a publish collision (UncoordinatedWriteError) is lost instead of reaching _retry / the caller"
 
-    def is_var(dv, regs):
+    def is_var(dv, regs, fn):
+        fnorm = FlowNorm(fn)
+
         def ok(n, v):
+            v = _copy_root(fnorm, n, v)
             if isinstance(v, ast.Name):
                 return v.id == dv
             return any(v is x.call for x in regs if x.recv == dv)
@@ -1496,7 +1549,7 @@ def _modify_chain_returns(r, idx):
     areg = [x for x in regs if x.kind in ("cb", "both") and isinstance(x.target, ast.Name) and x.target.id == "_apply"]
     r.site(mo, None, "_modify_once returns the chained Deferred")
     if areg and areg[0].recv:
-        _returns_only(r, mo, is_var(areg[0].recv, regs), "the Deferred that _apply is chained on", lost)
+        _returns_only(r, mo, is_var(areg[0].recv, regs, mo), "the Deferred that _apply is chained on", lost)
     else:
         r.violation(mo, mo.loc(), "_apply is not chained on a named Deferred in _modify_once")
     # (iii) the callbacks in _modify_and_retry return what they start
@@ -1509,7 +1562,7 @@ def _modify_chain_returns(r, idx):
             r.violation(mr, mr.loc(c), "the callback that calls _modify_once does not return its Deferred: %s" % lost)
     r.site(mr, None, "_modify_and_retry returns its Deferred")
     if once and once[0].recv:
-        _returns_only(r, mr, is_var(once[0].recv, regs), "the Deferred the attempt is chained on", lost)
+        _returns_only(r, mr, is_var(once[0].recv, regs, mr), "the Deferred the attempt is chained on", lost)
     # (iv) _retry returns the Deferred of the next attempt
     rregs = registrations(rt)
     again = [x for x in rregs if x.kind in ("cb", "both") and _calls_inside(idx, rt, x.target, "_modify_and_retry")]
@@ -1522,7 +1575,7 @@ def _modify_chain_returns(r, idx):
             r.violation(rt, rt.loc(c), "the callback that starts the next attempt does not return its Deferred: the caller is "
                         "told the modification is done while the retry is still running, and its outcome is lost")
     if again[0].recv:
-        _returns_only(r, rt, is_var(again[0].recv, rregs), "the Deferred of the next attempt",
+        _returns_only(r, rt, is_var(again[0].recv, rregs, rt), "the Deferred of the next attempt",
                       "the caller is told the modification succeeded right after the collision, and the retry's outcome is lost")
     else:
         r.violation(rt, rt.loc(again[0].call), "the next attempt is chained on an anonymous Deferred")
@@ -1613,3 +1666,955 @@ def _writer_server_attr(r, fn, ga):
                             "writer.server, so its answer handler raises (swallowed by the DeferredList) or compares the "
                             "surprise shares against another server's writers (path: %s)" % (W, W, S, w.brief()), w)
                 break
+
+
+# ------------------------------------------------ the test vector on its way to the share (C12.16 - C12.18)
+# The write proxies hand (offset, length, specimen) triples, filed under their share number, to an IStorageServer
+# adapter; from there they travel through a protocol (Foolscap: 4-tuples with an operator; HTTP: attrs objects -> CBOR
+# maps -> 4-tuples rebuilt by the handler) to check_testv, which reads `length` bytes at `offset` and compares them
+# with `specimen`.  A hop that drops a vector, shortens the length or the specimen, or files the vectors under another
+# share makes the server test less than the publisher asked for: (0, 1, b'') ("the share must not exist") turned into
+# (0, 0, b'') is satisfied by every share.  The hops build their output with comprehensions or loops; _Shape evaluates
+# a function body to the *shape* of the values it builds (which element of which input lands where), so the rules
+# compare shapes, not statements.
+_CALLER_ROLES = {"offset": 0, "size": 1, "specimen": 2}      # the proxies' (offset, length, specimen) (C12.1 / C12.2)
+_TESTV_SLOT = 0               # (testv, datav, new_length): C12.9 pins check_testv to element 0 of the per-share triple
+_PASS_THROUGH = ("tuple", "list", "sorted", "dict", "iter", "reversed")
+
+
+class _Loop:
+    def __init__(self, uid, base, node, target):
+        self.uid, self.base, self.node, self.target, self.partial = uid, base, node, target, False
+
+
+class _Acc:
+    """A list / dict built element by element: a comprehension, or `x = []` / `x = {}` followed by append / `x[k] = v`."""
+
+    def __init__(self, kind, ldepth, cdepth, node):
+        self.kind, self.ldepth, self.cdepth, self.node = kind, ldepth, cdepth, node
+        self.entries = []          # (loops, key | None, value, conditional, node)
+        self.opaque = None
+
+
+def _item(base, i):
+    if isinstance(base, tuple) and base and base[0] == "tuple" and isinstance(i, int) and not isinstance(i, bool) \
+            and -len(base[1]) <= i < len(base[1]):
+        return base[1][i]
+    if isinstance(base, tuple) and base and base[0] == "dict":
+        for (k, v) in base[1]:
+            if k == ("const", i):
+                return v
+    return ("item", base, i)
+
+
+def _attr(base, name):
+    if isinstance(base, tuple) and base and base[0] == "obj":
+        for (k, v) in base[2]:
+            if k == name:
+                return v
+    return ("attr", base, name)
+
+
+def _deep(v, pred):
+    """Some part of the (frozen) value satisfies pred."""
+    if pred(v):
+        return True
+    if isinstance(v, tuple):
+        return any(_deep(x, pred) for x in v if not isinstance(x, ast.AST))
+    return False
+
+
+class _Shape:
+    def __init__(self, idx, fn, parent=None, env=None, inline=False):
+        self.idx, self.fn, self.inlining = idx, fn, inline or (parent is not None)
+        self.calls = []            # (call node, tail, frozen receiver, [frozen args], {kw: frozen value})
+        self.returns = []          # (return node, frozen value)
+        self.raw_returns = []      # (return node, value, loop depth, condition depth)
+        self.inlined = set() if parent is None else parent.inlined       # ids of call nodes replaced by the helper's value
+        if parent is None:
+            self.loops, self.all_loops, self.cond, self.counter, self.depth = [], [], 0, [0], 0
+            self.targets = {}      # loop uid -> target source (for messages)
+        else:                      # the body of a helper called by `parent`, evaluated on the caller's values
+            self.loops, self.all_loops, self.cond, self.counter = list(parent.loops), parent.all_loops, parent.cond, parent.counter
+            self.targets, self.depth = parent.targets, parent.depth + 1
+        self.base = len(self.loops)
+        self.base_cond = self.cond
+        self.freezing = set()
+        self.env = env if env is not None else {p: ("param", p) for p in fn.params}
+        self.block(fn.body, self.env)
+
+    def new_uid(self):
+        self.counter[0] += 1
+        return self.counter[0]
+
+    def inline(self, e, recv, args, kws, env):
+        """Value returned by a package-local helper (a method of the same object, or a module-level function) whose body is
+        straight enough: evaluated on the caller's values, so that a conversion moved into a helper keeps its shape."""
+        f, g, bound = e.func, None, False
+        if isinstance(f, ast.Attribute) and recv == ("param", "self") and self.fn.cls is not None and "self" in self.fn.params[:1]:
+            g, bound = self.fn.cls.lookup(f.attr), True
+        elif isinstance(f, ast.Name) and f.id not in env:
+            t = self.idx.resolve_name(self.fn.module, f.id)
+            g = t if isinstance(t, FuncInfo) and t.cls is None and t.parent is None else None
+        if g is None or self.depth >= 2 or g is self.fn or not isinstance(g.node, ast.FunctionDef):
+            return None
+        a = g.node.args
+        if a.vararg or a.kwarg or a.kwonlyargs or any(isinstance(x, (ast.Yield, ast.YieldFrom, ast.Await)) for x in func_own_nodes(g)):
+            return None
+        decs = [attr_path(d) for d in g.decorators()]
+        if any(d != "staticmethod" for d in decs):
+            return None
+        ps = list(g.params)
+        genv = {}
+        if bound and "staticmethod" not in decs:
+            if not ps:
+                return None
+            genv[ps[0]] = recv
+            ps = ps[1:]
+        if len(args) > len(ps) or any(k not in ps for k in kws):
+            return None
+        for i, x in enumerate(args):
+            genv[ps[i]] = x
+        genv.update(kws)
+        for q in ps:
+            genv.setdefault(q, ("default", q))
+        sub = _Shape(self.idx, g, parent=self, env=genv)
+        self.calls += sub.calls
+        if len(sub.raw_returns) == 1 and sub.raw_returns[0][2] == sub.base and sub.raw_returns[0][3] == sub.base_cond:
+            return sub.raw_returns[0][1]
+        return None
+
+    # -- values
+    def freeze(self, v):
+        if isinstance(v, _Acc):
+            if id(v) in self.freezing:          # a collection that holds (a value derived from) itself
+                return ("acc", v.kind, (), "a reference to itself")
+            self.freezing.add(id(v))
+            try:
+                return ("acc", v.kind, tuple(
+                    (tuple((l.uid, self.freeze(l.base), l.partial) for l in loops), self.freeze(k), self.freeze(val), cond)
+                    for (loops, k, val, cond, _n) in v.entries), v.opaque)
+            finally:
+                self.freezing.discard(id(v))
+        if isinstance(v, tuple):
+            return tuple(x if isinstance(x, ast.AST) else self.freeze(x) for x in v)
+        return v
+
+    def describe(self, v):
+        if not isinstance(v, tuple) or not v:
+            return repr(v)
+        t = v[0]
+        if t == "param" or t == "global":
+            return v[1]
+        if t in ("elem", "item"):
+            tg = self._target_of(v)
+            if isinstance(tg, ast.Name):
+                return tg.id
+        if t == "elem":
+            return "<%s>" % self.targets.get(v[1], "element")
+        if t == "item":
+            return "%s[%s]" % (self.describe(v[1]), self.describe(v[2]) if isinstance(v[2], tuple) else repr(v[2]))
+        if t == "attr":
+            return "%s.%s" % (self.describe(v[1]), v[2])
+        if t in ("items", "keys"):
+            return "%s.%s()" % (self.describe(v[1]), t)
+        if t == "const":
+            return repr(v[1])
+        if t == "tuple":
+            return "(%s)" % ", ".join(self.describe(x) for x in v[1])
+        if t == "dict":
+            return "{%s}" % ", ".join("%s: %s" % (self.describe(k), self.describe(x)) for (k, x) in v[1])
+        if t == "obj":
+            return "%s(%s)" % (v[1].rsplit(".", 1)[-1].rsplit(":", 1)[-1], ", ".join("%s=%s" % (k, self.describe(x)) for (k, x) in v[2]))
+        if t == "acc":
+            if v[3]:
+                return "a %s changed by %s" % (v[1], v[3])
+            parts = []
+            for (loops, k, val, cond) in v[2]:
+                body = self.describe(val) if k is None else "%s: %s" % (self.describe(k), self.describe(val))
+                parts.append("%s%s%s" % (body, "".join(" for <%s> in %s" % (self.targets.get(u, "x"), self.describe(b))
+                                                       for (u, b, _p) in loops), " if .." if cond else ""))
+            return ("[%s]" if v[1] == "list" else "{%s}") % "; ".join(parts)
+        if isinstance(v[-1], ast.AST):
+            return src(self.fn, v[-1])
+        return t
+
+    def _target_of(self, v):
+        """The loop-target sub-pattern a value was unpacked into (for messages only)."""
+        if v[0] == "elem":
+            lp = [l for l in self.all_loops if l.uid == v[1]]
+            return lp[0].target if lp else None
+        if v[0] == "item" and isinstance(v[2], int) and isinstance(v[1], tuple):
+            tg = self._target_of(v[1])
+            if isinstance(tg, (ast.Tuple, ast.List)) and 0 <= v[2] < len(tg.elts):
+                return tg.elts[v[2]]
+        return None
+
+    # -- expressions
+    def ev(self, e, env):
+        if e is None:
+            return ("const", None)
+        if isinstance(e, ast.Constant):
+            return ("const", e.value)
+        if isinstance(e, ast.Name):
+            return env.get(e.id, ("global", e.id))
+        if isinstance(e, (ast.Await, ast.YieldFrom)) or (isinstance(e, ast.Yield) and e.value is not None):
+            return self.ev(e.value, env)
+        if isinstance(e, ast.NamedExpr):
+            v = self.ev(e.value, env)
+            env[e.target.id] = v
+            return v
+        if isinstance(e, (ast.Tuple, ast.List)):
+            if isinstance(e, ast.List) and not e.elts:
+                return _Acc("list", len(self.loops), self.cond, e)
+            if any(isinstance(x, ast.Starred) for x in e.elts):
+                for x in e.elts:
+                    self.ev(x.value if isinstance(x, ast.Starred) else x, env)
+                return ("other", e)
+            return ("tuple", tuple(self.ev(x, env) for x in e.elts))
+        if isinstance(e, ast.Dict):
+            if not e.keys:
+                return _Acc("dict", len(self.loops), self.cond, e)
+            if any(k is None for k in e.keys):
+                for x in e.values:
+                    self.ev(x, env)
+                return ("other", e)
+            return ("dict", tuple((self.ev(k, env), self.ev(x, env)) for k, x in zip(e.keys, e.values)))
+        if isinstance(e, ast.Subscript):
+            base = self.ev(e.value, env)
+            if isinstance(e.slice, ast.Slice):
+                for x in (e.slice.lower, e.slice.upper, e.slice.step):
+                    if x is not None:
+                        self.ev(x, env)
+                return ("other", self.freeze(base), e)
+            k = self.ev(e.slice, env)
+            if k[0] == "const" and isinstance(k[1], (int, str, bytes)) and not isinstance(k[1], bool):
+                return _item(base, k[1])
+            return ("item", base, k)
+        if isinstance(e, ast.Attribute):
+            return _attr(self.ev(e.value, env), e.attr)
+        if isinstance(e, ast.Call):
+            return self.call(e, env)
+        if isinstance(e, (ast.ListComp, ast.SetComp, ast.GeneratorExp, ast.DictComp)):
+            return self.comp(e, env)
+        if isinstance(e, ast.Lambda):
+            return ("other", e)
+        # anything else: evaluate the operands (their calls are recorded), the result is opaque but keeps its inputs
+        parts = tuple(self.freeze(self.ev(c, env)) for c in ast.iter_child_nodes(e) if isinstance(c, ast.expr))
+        return ("other", parts, e)
+
+    def _class_of(self, f):
+        ci = self.idx.resolve_expr(self.fn.module, f) if isinstance(f, (ast.Name, ast.Attribute)) else None
+        if isinstance(ci, ClassInfo) and "__init__" not in ci.methods:
+            fields = [st.target.id for st in ci.node.body if isinstance(st, ast.AnnAssign) and isinstance(st.target, ast.Name)]
+            if fields:
+                return ci, fields
+        return None
+
+    def call(self, e, env):
+        f = e.func
+        starred = any(isinstance(a, ast.Starred) for a in e.args) or any(k.arg is None for k in e.keywords)
+        recv = self.ev(f.value, env) if isinstance(f, ast.Attribute) else None
+        args = [self.ev(a.value if isinstance(a, ast.Starred) else a, env) for a in e.args]
+        kws = {(k.arg or "**"): self.ev(k.value, env) for k in e.keywords}
+        tail = call_tail(e)
+        if recv is not None and not e.args and not e.keywords and tail in ("items", "keys"):
+            return (tail, recv)
+        if isinstance(recv, _Acc):
+            if tail == "append" and recv.kind == "list" and len(args) == 1 and not kws and not starred:
+                recv.entries.append((tuple(self.loops[recv.ldepth:]), None, args[0], self.cond > recv.cdepth, e))
+                return ("const", None)
+            if tail in ("extend", "update", "pop", "popitem", "clear", "remove", "insert", "setdefault", "sort", "reverse",
+                        "discard", "add", "append"):
+                recv.opaque = "%s()" % tail
+        if isinstance(f, ast.Name) and f.id in _PASS_THROUGH and f.id not in env and len(args) == 1 and not starred \
+                and (not kws or f.id == "sorted"):
+            return args[0]
+        cls = self._class_of(f) if not starred else None
+        if cls is not None:
+            ci, fields = cls
+            vals = {}
+            for i, a in enumerate(args):
+                if i < len(fields):
+                    vals[fields[i]] = a
+            for k, v in kws.items():
+                hit = [x for x in fields if x == k or x.lstrip("_") == k]
+                if hit:
+                    vals[hit[0]] = v
+            return ("obj", ci.qual, tuple((x, vals.get(x, ("default", x))) for x in fields))
+        fr = self.freeze(recv) if recv is not None else None
+        fa = [self.freeze(a) for a in args]
+        fk = {k: self.freeze(v) for k, v in kws.items()}
+        self.calls.append((e, tail, fr, fa, fk))
+        if self.inlining and not starred:
+            got = self.inline(e, recv, args, kws, env)
+            if got is not None:
+                self.inlined.add(id(e))
+                return got
+        return ("call", tail, fr, tuple(fa), tuple(sorted(fk.items())), e)
+
+    def loop(self, target, it, env, node):
+        lp = _Loop(self.new_uid(), self.ev(it, env), node, target)
+        self.targets[lp.uid] = src(self.fn, target)
+        self.loops.append(lp)
+        self.all_loops.append(lp)
+        self.bind(target, ("elem", lp.uid), env)
+        return lp
+
+    def comp(self, e, env):
+        env = dict(env)
+        acc = _Acc("dict" if isinstance(e, ast.DictComp) else "list", len(self.loops), self.cond, e)
+        n0, cond = len(self.loops), False
+        for g in e.generators:
+            self.loop(g.target, g.iter, env, g)
+            for c in g.ifs:
+                cond = True
+                self.ev(c, env)
+        if isinstance(e, ast.DictComp):
+            k, v = self.ev(e.key, env), self.ev(e.value, env)
+        else:
+            k, v = None, self.ev(e.elt, env)
+        acc.entries.append((tuple(self.loops[n0:]), k, v, cond, e))
+        del self.loops[n0:]
+        return acc
+
+    # -- statements
+    def bind(self, t, v, env):
+        if isinstance(t, ast.Name):
+            env[t.id] = v
+        elif isinstance(t, (ast.Tuple, ast.List)):
+            for i, x in enumerate(t.elts):
+                if isinstance(x, ast.Starred):
+                    self.bind(x.value, ("other", x), env)
+                else:
+                    self.bind(x, _item(v, i), env)
+        elif isinstance(t, ast.Subscript):
+            base = self.ev(t.value, env)
+            if isinstance(base, _Acc):
+                if base.kind == "dict" and not isinstance(t.slice, ast.Slice):
+                    base.entries.append((tuple(self.loops[base.ldepth:]), self.ev(t.slice, env), v, self.cond > base.cdepth, t))
+                else:
+                    base.opaque = "an item store"
+        elif isinstance(t, ast.Attribute) and isinstance(t.value, ast.Name):
+            o = env.get(t.value.id)
+            if isinstance(o, tuple) and o and o[0] == "obj":
+                env[t.value.id] = ("obj", o[1], tuple((k, v if k == t.attr else x) for (k, x) in o[2]))
+
+    def merge(self, env, branches):
+        for name in set().union(*[set(b) for b in branches]):
+            vals = [b.get(name) for b in branches]
+            if all(x is vals[0] or (not isinstance(x, _Acc) and not isinstance(vals[0], _Acc) and x == vals[0]) for x in vals):
+                env[name] = vals[0]
+            else:
+                env[name] = ("phi", tuple(self.freeze(x) for x in vals if x is not None))
+
+    def block(self, stmts, env):
+        for st in stmts:
+            self.stmt(st, env)
+
+    def stmt(self, st, env):
+        if isinstance(st, ast.Assign):
+            v = self.ev(st.value, env)
+            for t in st.targets:
+                self.bind(t, v, env)
+        elif isinstance(st, ast.AnnAssign):
+            if st.value is not None:
+                self.bind(st.target, self.ev(st.value, env), env)
+        elif isinstance(st, ast.AugAssign):
+            v = self.ev(st.value, env)
+            cur = self.ev(st.target, env) if isinstance(st.target, (ast.Name, ast.Attribute)) else None
+            if isinstance(cur, _Acc):
+                cur.opaque = "an augmented assignment"
+            if isinstance(st.target, ast.Subscript):
+                b = self.ev(st.target.value, env)
+                if isinstance(b, _Acc):
+                    b.opaque = "an augmented assignment"
+            elif isinstance(st.target, ast.Name):
+                env[st.target.id] = ("other", (self.freeze(cur), self.freeze(v)), st)
+        elif isinstance(st, ast.Expr):
+            self.ev(st.value, env)
+        elif isinstance(st, ast.Return):
+            v = self.ev(st.value, env)
+            self.returns.append((st, self.freeze(v)))
+            self.raw_returns.append((st, v, len(self.loops), self.cond))
+            for lp in self.loops[self.base:]:
+                lp.partial = True
+        elif isinstance(st, (ast.For, ast.AsyncFor)):
+            n0 = len(self.loops)
+            self.loop(st.target, st.iter, env, st)
+            self.block(st.body, env)
+            del self.loops[n0:]
+            self.block(st.orelse, env)
+        elif isinstance(st, ast.While):
+            self.ev(st.test, env)
+            self.loops.append(_Loop(self.new_uid(), ("while",), st, None))
+            self.cond += 1
+            self.block(st.body, env)
+            self.cond -= 1
+            self.loops.pop()
+            self.block(st.orelse, env)
+        elif isinstance(st, ast.If):
+            self.ev(st.test, env)
+            self.cond += 1
+            a, b = dict(env), dict(env)
+            self.block(st.body, a)
+            self.block(st.orelse, b)
+            self.cond -= 1
+            self.merge(env, [a, b])
+        elif isinstance(st, ast.Try) or st.__class__.__name__ == "TryStar":
+            self.block(st.body, env)
+            self.block(st.orelse, env)
+            branches = [dict(env)]
+            self.cond += 1
+            for h in st.handlers:
+                henv = dict(env)
+                if h.name:
+                    henv[h.name] = ("other", h)
+                self.block(h.body, henv)
+                branches.append(henv)
+            self.cond -= 1
+            self.merge(env, branches)
+            self.block(st.finalbody, env)
+        elif isinstance(st, (ast.With, ast.AsyncWith)):
+            for it in st.items:
+                v = self.ev(it.context_expr, env)
+                if it.optional_vars is not None:
+                    self.bind(it.optional_vars, ("other", self.freeze(v), it.context_expr), env)
+            self.block(st.body, env)
+        elif isinstance(st, (ast.Break, ast.Continue)):
+            if self.loops:
+                self.loops[-1].partial = True
+        elif isinstance(st, ast.Raise):
+            if st.exc is not None:
+                self.ev(st.exc, env)
+        elif isinstance(st, ast.Assert):
+            self.ev(st.test, env)
+        elif isinstance(st, ast.Delete):
+            for t in st.targets:
+                if isinstance(t, ast.Name):
+                    env.pop(t.id, None)
+                elif isinstance(t, ast.Subscript):
+                    b = self.ev(t.value, env)
+                    if isinstance(b, _Acc):
+                        b.opaque = "del"
+        elif isinstance(st, (ast.FunctionDef, ast.AsyncFunctionDef, ast.ClassDef)):
+            env[st.name] = ("other", st)
+        elif isinstance(st, (ast.Import, ast.ImportFrom)):
+            for al in st.names:
+                env.pop((al.asname or al.name).split(".")[0], None)
+        elif isinstance(st, (ast.Pass, ast.Global, ast.Nonlocal)):
+            pass
+        else:
+            raise AnalysisError("%s: statement %s is not understood by the shape evaluation" % (self.fn.qual, st.__class__.__name__))
+
+
+def _mentions(v, what):
+    return _deep(v, lambda x: x == what)
+
+
+def _one_to_one(sh, v, what):
+    """v is (the frozen form of) a list / dict built with exactly one unconditional entry per element of exactly one
+    loop: returns ((uid, base), key, value) or a string saying why not."""
+    if not (isinstance(v, tuple) and v and v[0] == "acc"):
+        return "%s is %s, not a collection built element by element" % (what, sh.describe(v))
+    if v[3]:
+        return "%s is changed by %s after it was built" % (what, v[3])
+    if len(v[2]) != 1:
+        return "%s is filled at %d places" % (what, len(v[2]))
+    (loops, k, val, cond) = v[2][0]
+    if len(loops) != 1:
+        return "%s is filled %s" % (what, "outside any loop" if not loops else "inside %d nested loops" % len(loops))
+    if cond:
+        return "%s leaves elements out (a condition guards the entry %s)" % (what, sh.describe(val))
+    if loops[0][2]:
+        return "the loop that fills %s can be cut short (break / continue / return)" % what
+    return ((loops[0][0], loops[0][1]), k, val)
+
+
+def _key_value(loop, D):
+    """(key value, value value) of one step of a loop over the mapping D, or None."""
+    uid, base = loop
+    e = ("elem", uid)
+    if base == ("items", D):
+        return (_item(e, 0), _item(e, 1))
+    if base == D or base == ("keys", D):
+        return (e, ("item", D, e))
+    return None
+
+
+def _per_share(sh, v, D, what):
+    """v maps every share number of the mapping D to something: returns (that value, the caller's per-share value) or str."""
+    got = _one_to_one(sh, v, what)
+    if isinstance(got, str):
+        return got
+    loop, k, val = got
+    if v[1] != "dict":
+        return "%s is a list, not a mapping by share number" % what
+    kv = _key_value(loop, D)
+    if kv is None:
+        return "%s is built from %s, not from every share of %s" % (what, sh.describe(loop[1]), sh.describe(D))
+    if k != kv[0]:
+        return "%s files the vectors of share %s under %s" % (what, sh.describe(kv[0]), sh.describe(k))
+    return (val, kv[1])
+
+
+def _vector_elements(sh, v, src_list, what):
+    """v is a list with one entry per element of src_list: returns (element value built, ('elem', uid)) or str."""
+    got = _one_to_one(sh, v, what)
+    if isinstance(got, str):
+        return got
+    loop, _k, val = got
+    if loop[1] != src_list:
+        return "%s is built from %s, not from every test vector %s" % (what, sh.describe(loop[1]), sh.describe(src_list))
+    return (val, ("elem", loop[0]))
+
+
+def _consumer(idx, r=None):
+    """What check_testv does with one element of the test vector it is given: {'offset': i, 'size': j, 'specimen': k},
+    arity of the element.  (With r: also checks C12.18 on both check_testv implementations.)"""
+    out = None
+    for q, empty in (("storage.mutable:MutableShareFile.check_testv", False), ("storage.mutable:EmptyShare.check_testv", True)):
+        fn = idx.func(q)
+        ps = first_positional_params(fn)
+        if not ps:
+            raise AnchorVanished("%s(testv)" % short(fn))
+        sh = _Shape(idx, fn)
+        cmps = [c for c in sh.calls if c[1] == "testv_compare"]
+        if not cmps:
+            raise AnchorVanished("%s no longer calls testv_compare" % short(fn))
+        roles = None
+        for (node, _t, _recv, a, _k) in cmps:
+            if r is not None:
+                r.site(fn, node, "comparison")
+            if len(a) != 3:
+                raise AnalysisError("%s: testv_compare(data, operator, specimen) expected" % short(fn))
+            el = [x for x in (a[1], a[2]) if isinstance(x, tuple) and x[0] == "item" and isinstance(x[1], tuple) and x[1][0] == "elem"]
+            lp = [l for l in sh.all_loops if el and l.uid == el[0][1][1]]
+            ok = len(el) == 2 and el[0][1] == el[1][1] and bool(lp) and isinstance(el[0][2], int) and isinstance(el[1][2], int)
+            if not ok:
+                if r is not None:
+                    r.violation(fn, fn.loc(node), "%s compares with operator %s and specimen %s, which are not two fields of one "
+                                "element of the test vector" % (short(fn), sh.describe(a[1]), sh.describe(a[2])))
+                continue
+            e = el[0][1]
+            if r is not None:
+                r.require(sh.freeze(lp[0].base) == ("param", ps[0]), fn, fn.loc(lp[0].node), "%s walks over %s, not over every "
+                          "element of the test vector %s it was given" % (short(fn), sh.describe(sh.freeze(lp[0].base)), ps[0]))
+            got = {"op": el[0][2], "specimen": el[1][2]}
+            d = a[0]
+            if empty:
+                if r is not None:
+                    r.require(d == ("const", b""), fn, fn.loc(node), "for an absent share the specimen is compared with %s, not "
+                              "with b'' (what a read of a share that does not exist returns)" % sh.describe(d))
+            else:
+                rd = d if isinstance(d, tuple) and d[0] == "call" and d[1] == "_read_share_data" and len(d[3]) == 3 else None
+                if rd is None:
+                    if r is not None:
+                        r.violation(fn, fn.loc(node), "the specimen is compared with %s, not with bytes read from the share by "
+                                    "_read_share_data(f, offset, length)" % sh.describe(d))
+                    continue
+                o, ln = rd[3][1], rd[3][2]
+                for (name, x) in (("offset", o), ("size", ln)):
+                    if isinstance(x, tuple) and x[0] == "item" and x[1] == e and isinstance(x[2], int):
+                        got[name] = x[2]
+                    elif r is not None:
+                        r.violation(fn, fn.loc(node), "the bytes compared with the specimen are read with %s = %s, which is not a "
+                                    "field of the test vector element: the server tests something else than the writer asked for "
+                                    "(a zero-length read makes (0, 1, b'') - 'the share must not exist' - pass on any share)" % (
+                                        "length" if name == "size" else name, sh.describe(x)))
+            if len(set(got.values())) == len(got) and (empty or len(got) == 4):
+                roles = dict(got)
+                roles["arity"] = len(lp[0].target.elts) if isinstance(lp[0].target, ast.Tuple) else None
+        if r is not None:
+            _failing_vector_refuses(r, fn)
+        if not empty:
+            out = roles
+        elif roles is not None and out is not None and r is not None:
+            r.require(all(out[k] == roles[k] for k in ("op", "specimen")), fn, fn.loc(), "EmptyShare.check_testv takes operator / "
+                      "specimen from elements %s of a test vector, MutableShareFile.check_testv from %s" % (
+                          (roles["op"], roles["specimen"]), (out["op"], out["specimen"])))
+    if r is not None:
+        tc = idx.func("storage.mutable:testv_compare")
+        r.site(tc, None, "equality")
+        p = tc.params
+        if len(p) != 3:
+            raise AnchorVanished("testv_compare(a, op, b)")
+        nf = N(tc)
+
+        def whole_equality(n, v):
+            f = nf.cmp(v, True)
+            return bool(f) and f[0] == "==" and {f[1], f[2]} == {p[0], p[2]}
+        _returns_only(r, tc, whole_equality, "%s == %s" % (p[0], p[2]),
+                      "anything weaker than equality of the bytes read with the whole specimen (a prefix, a containment) lets a "
+                      "test vector pass on a share that changed")
+    return out
+
+
+def _failing_vector_refuses(r, fn):
+    """After a failing comparison every return gives False; a value that may be true is returned only after the loop
+    over the test vector has run to its end without a failure."""
+    cfg = fn.cfg()
+    tests = [n for n in cfg.nodes if n.kind == "test" and isinstance(n.ast, ast.Call) and call_tail(n.ast) == "testv_compare"]
+    if not tests:
+        raise AnchorVanished("%s no longer branches on testv_compare(..)" % short(fn))
+    heads = [n for n in cfg.nodes if n.kind == "iter"]
+
+    def transfer(n, lab, nxt, st):
+        failed, done, known = st
+        if lab == "exc":
+            return None
+        if n in tests and isinstance(lab, tuple) and lab[0] == "F":
+            failed = True
+        if n in heads and lab == "done":
+            done = True
+        if n.kind in ("stmt", "iter", "with", "except"):
+            names = {s for s in node_stores(n) if "." not in s and not s.endswith("[]")}
+            if names:
+                kn = {(k, v) for (k, v) in known if k not in names}
+                if n.kind == "stmt" and isinstance(n.ast, ast.Assign):
+                    v = n.ast.value
+                    val = v.value if isinstance(v, ast.Constant) else dict(known).get(v.id) if isinstance(v, ast.Name) else None
+                    if isinstance(val, bool):
+                        kn |= {(t.id, val) for t in n.ast.targets if isinstance(t, ast.Name)}
+                known = frozenset(kn)
+        return (failed, done, known)
+    visited, parent = explore(cfg, (False, False, frozenset()), transfer)
+    r.count(len(visited))
+    told = set()
+    for (nid, st) in sorted(visited, key=lambda x: (x[0], x[1][0], x[1][1], sorted(x[1][2]))):
+        n = cfg.nodes[nid]
+        if not is_return(n):
+            continue
+        failed, done, known = st
+        v = n.ast.value
+        val = v.value if isinstance(v, ast.Constant) else dict(known).get(v.id) if isinstance(v, ast.Name) else None
+        if val is False:
+            continue
+        kind = "failed" if failed else ("early" if not done else None)
+        if kind is None or (nid, kind) in told:
+            continue
+        told.add((nid, kind))
+        w = witness(cfg, parent, (nid, st))
+        if failed:
+            r.violation(fn, fn.loc(n.ast), "after a failing test vector %s can return %s instead of False: the write is applied "
+                        "to a share that is not what the writer saw (path: %s)" % (short(fn), src(fn, v), w.brief()), w)
+        else:
+            r.violation(fn, fn.loc(n.ast), "%s can return %s before every test vector has been compared (path: %s)" % (
+                short(fn), src(fn, v), w.brief()), w)
+    for (n, w) in find_path_avoiding(cfg, lambda n: n.kind == "exit", gate_node=is_return):
+        r.violation(fn, fn.loc(), "%s can fall off its end" % short(fn), w)
+
+
+def _wire_keys(idx, ci):
+    """{field: key} of the CBOR map an attrs class of http_client is sent as: attrs.asdict(self) keys, renamed by the
+    `d[new] = d.pop(old)` statements of the class's own asdict()."""
+    fields = [st.target.id for st in ci.node.body if isinstance(st, ast.AnnAssign) and isinstance(st.target, ast.Name)]
+    keys = {f: f for f in fields}
+    own = ci.methods.get("asdict")
+    if own is not None:
+        sh = _Shape(idx, own)
+        base = [c for c in sh.calls if c[1] == "asdict" and c[3] == [("param", own.params[0])]]
+        if not base:
+            raise AnalysisError("%s does not start from attrs.asdict(self)" % short(own))
+        dname = None
+        for st in func_own_nodes(own):
+            if isinstance(st, ast.Assign) and isinstance(st.value, ast.Call) and st.value is base[0][0] \
+                    and len(st.targets) == 1 and isinstance(st.targets[0], ast.Name):
+                dname = st.targets[0].id
+        for st in func_own_nodes(own):
+            if isinstance(st, ast.Assign) and len(st.targets) == 1 and isinstance(st.targets[0], ast.Subscript) \
+                    and attr_path(st.targets[0].value) == dname and isinstance(st.targets[0].slice, ast.Constant):
+                v = st.value
+                if isinstance(v, ast.Call) and call_name(v) == "%s.pop" % dname and len(v.args) == 1 \
+                        and isinstance(v.args[0], ast.Constant) and v.args[0].value in keys.values():
+                    old = [f for f, k in keys.items() if k == v.args[0].value][0]
+                    keys[old] = st.targets[0].slice.value
+                else:
+                    raise AnalysisError("%s: %s is not a plain rename of a field" % (short(own), src(own, st)))
+        rets = [v for (_n, v) in sh.returns]
+        if dname is None or not rets or any(v[0] != "call" or v[-1] is not base[0][0] for v in rets):
+            raise AnalysisError("%s does not return the (renamed) attrs.asdict(self) map" % short(own))
+    return keys
+
+
+class _HttpWire:
+    """The HTTP hop of a mutable write: StorageClientMutables.read_test_write_chunks .. request body .. handler
+    mutable_read_test_write .. StorageServer.slot_testv_and_readv_and_writev."""
+
+    def __init__(self, idx, consumer, r=None):
+        self.idx, self.consumer, self.r = idx, consumer, r
+        self.cm = idx.module("allmydata.storage.http_client")
+        self.server_side()
+        self.client_side()
+
+    def bad(self, fn, node, msg):
+        if self.r is not None:
+            self.r.violation(fn, fn.loc(node), msg)
+        self.ok = False
+
+    def server_side(self):
+        idx, cons = self.idx, self.consumer
+        self.ok = True
+        self.role_keys, self.test_key, self.body_key = {}, None, None
+        h = self.handler = idx.func("storage.http_server:HTTPServer.mutable_read_test_write")
+        srv = idx.func(SRV + "." + REMOTE)
+        sps = first_positional_params(srv)
+        sh = _Shape(idx, h, inline=True)
+        calls = [c for c in sh.calls if c[1] == REMOTE]
+        if not calls:
+            raise AnchorVanished("%s no longer calls %s" % (short(h), REMOTE))
+        for (node, _t, _recv, a, kw) in calls:
+            if self.r is not None:
+                self.r.site(h, node, "handler rebuilds the vectors")
+            v = kw.get(sps[2], a[2] if len(a) > 2 else None)
+            if v is None:
+                raise AnalysisError("%s: no test-and-write vector argument" % short(h))
+            got = _one_to_one(sh, v, "the test-and-write vector mapping")
+            if isinstance(got, str):
+                self.bad(h, node, "%s: %s" % (short(h), got))
+                continue
+            loop, k, val = got
+            base = loop[1]
+            inner = base[1] if base[0] == "items" else None
+            if not (inner is not None and inner[0] == "item" and isinstance(inner[2], str) and isinstance(inner[1], tuple)
+                    and inner[1][0] == "call" and inner[1][1] == "read_encoded"):
+                self.bad(h, node, "%s builds the vectors from %s, not from a field of the decoded request body" % (
+                    short(h), sh.describe(base)))
+                continue
+            self.body_key = inner[2]
+            e = ("elem", loop[0])
+            if k != _item(e, 0):
+                self.bad(h, node, "%s files the vectors of share %s under %s" % (short(h), sh.describe(_item(e, 0)), sh.describe(k)))
+            pv = _item(e, 1)
+            tv = _item(val, _TESTV_SLOT)
+            if not (isinstance(val, tuple) and val[0] == "tuple"):
+                self.bad(h, node, "%s passes %s per share, not a (test, write, new_length) tuple" % (short(h), sh.describe(val)))
+                continue
+            got = _one_to_one(sh, tv, "the test vector handed to the storage server")
+            if isinstance(got, str):
+                self.bad(h, node, "%s: %s: vectors the client sent are not tested" % (short(h), got))
+                continue
+            tloop, _k, elt = got
+            tb = tloop[1]
+            if not (tb[0] == "item" and tb[1] == pv and isinstance(tb[2], str)):
+                self.bad(h, node, "%s takes the test vectors from %s, not from a field of this share's entry" % (
+                    short(h), sh.describe(tb)))
+                continue
+            self.test_key = tb[2]
+            d = ("elem", tloop[0])
+            if not (elt[0] == "tuple" and (cons["arity"] is None or len(elt[1]) == cons["arity"])):
+                self.bad(h, node, "%s hands check_testv elements %s; it unpacks %s fields" % (short(h), sh.describe(elt), cons["arity"]))
+                continue
+            for role in ("offset", "size", "specimen"):
+                x = _item(elt, cons[role])
+                if isinstance(x, tuple) and x[0] == "item" and x[1] == d and isinstance(x[2], str):
+                    self.role_keys[role] = x[2]
+                else:
+                    self.bad(h, node, "%s gives check_testv the %s %s, which is not a field of the test vector the client sent%s" % (
+                        short(h), "length" if role == "size" else role, sh.describe(x),
+                        ": (0, 1, b'') - 'the share must not exist' - becomes a test that any share passes"
+                        if role in ("size", "specimen") else ""))
+            if len(set(self.role_keys.values())) != len(self.role_keys):
+                self.bad(h, node, "%s uses one field of the client's test vector twice: %s" % (short(h), self.role_keys))
+        # the Foolscap server object hands the vectors through untouched
+        fw = self.fool = idx.func("storage.server:FoolscapStorageServer.remote_" + REMOTE)
+        fsh = _Shape(idx, fw, inline=True)
+        fcalls = [c for c in fsh.calls if c[1] == REMOTE]
+        if not fcalls:
+            raise AnchorVanished("%s no longer calls %s" % (short(fw), REMOTE))
+        self.fool_param = None
+        for (node, _t, _recv, a, kw) in fcalls:
+            if self.r is not None:
+                self.r.site(fw, node, "foolscap server object")
+            v = kw.get(sps[2], a[2] if len(a) > 2 else None)
+            if isinstance(v, tuple) and v[0] == "param":
+                self.fool_param = first_positional_params(fw).index(v[1])
+            else:
+                self.bad(fw, node, "%s hands the storage server %s instead of the test-and-write vectors it received" % (
+                    short(fw), fsh.describe(v) if v is not None else "nothing"))
+
+    def client_side(self):
+        """Follow the mapping from StorageClientMutables.<entry>(.., testwrite_vectors, ..) to the request body."""
+        idx = self.idx
+        self.entry = idx.func("storage.http_client:StorageClientMutables.read_test_write_chunks")
+        self.entry_param, self.attrs_asdict = None, False
+        if self.body_key is None:
+            raise AnalysisError("%s: cannot tell which field of the request body carries the test-and-write vectors" % short(self.handler))
+        ps = first_positional_params(self.entry)
+        # the parameter is found from the far end: the one whose items reach the request body
+        found = []
+        for p in ps:
+            res = self.follow(self.entry, p, 0)
+            if res:
+                found.append(p)
+        if len(found) != 1:
+            raise AnalysisError("%s: cannot tell which parameter carries the test-and-write vectors (%s)" % (short(self.entry), found))
+        self.entry_param = found[0]
+        self.follow(self.entry, found[0], 0, report=True)
+
+    def follow(self, fn, p, depth, report=False):
+        sh = _Shape(self.idx, fn, inline=True)
+        P = ("param", p)
+        hit = False
+        for (node, tail, recv, a, kw) in sh.calls:
+            if tail == "request":
+                msg = kw.get("message_to_serialize")
+                if msg is None or not _mentions(msg, P):
+                    continue
+                if not (msg[0] == "dict"):
+                    if report:
+                        self.bad(fn, node, "%s: the request body is %s" % (short(fn), sh.describe(msg)))
+                    continue
+                for (k, v) in msg[1]:
+                    if not _mentions(v, P):
+                        continue
+                    if k != ("const", self.body_key):
+                        continue
+                    hit = True
+                    if not report:
+                        continue
+                    if self.r is not None:
+                        self.r.site(fn, node, "request body")
+                    got = _per_share(sh, v, P, "the %r field of the request body" % self.body_key)
+                    if isinstance(got, str):
+                        self.bad(fn, node, "%s: %s" % (short(fn), got))
+                        continue
+                    val, pv = got
+                    if val[0] == "call" and val[1] == "asdict" and (val[2] == pv or (val[2] is None and list(val[3]) == [pv])):
+                        self.attrs_asdict = val[2] is None
+                    else:
+                        self.bad(fn, node, "%s sends %s for a share instead of the asdict() of the caller's vectors %s" % (
+                            short(fn), sh.describe(val), sh.describe(pv)))
+                continue
+            if recv == ("param", "self") and fn.cls is not None and depth < 3:
+                g = fn.cls.lookup(tail)
+                if g is None:
+                    continue
+                gps = first_positional_params(g)
+                for i, x in enumerate(a):
+                    if x == P and i < len(gps):
+                        hit = self.follow(g, gps[i], depth + 1, report) or hit
+                    elif report and _mentions(x, P) and i < len(gps) and self.follow(g, gps[i], depth + 1):
+                        self.bad(fn, node, "%s passes %s on instead of the vectors %s it was given" % (short(fn), sh.describe(x), p))
+                for k, x in kw.items():
+                    if x == P and k in gps:
+                        hit = self.follow(g, k, depth + 1, report) or hit
+        return hit
+
+
+def _wire_rule(r, idx):
+    cons = _consumer(idx)
+    if cons is None:
+        raise AnalysisError("cannot tell which fields of a test vector element check_testv reads (see C12.18)")
+    wire = _HttpWire(idx, cons, r)
+    return wire
+
+
+def _adapters_rule(r, idx):
+    cons = _consumer(idx)
+    if cons is None:
+        raise AnalysisError("cannot tell which fields of a test vector element check_testv reads (see C12.18)")
+    wire = _HttpWire(idx, cons, None)
+    skip = ("allmydata.storage.server", "allmydata.interfaces")
+    adapters = [ci for ci in idx.classes.values() if REMOTE in ci.methods and ci.module.name not in skip
+                and not ci.module.name.startswith("allmydata.test")]
+    if len(adapters) < 2:
+        raise AnchorVanished("expected the Foolscap and the HTTP IStorageServer adapters to define %s" % REMOTE)
+    for ci in sorted(adapters, key=lambda c: c.qual):
+        fn = ci.methods[REMOTE]
+        r.site(fn, None, "adapter forwards test vectors")
+        ps = first_positional_params(fn)
+        if len(ps) < 4:
+            raise AnchorVanished("%s(storage_index, secrets, tw_vectors, r_vector)" % short(fn))
+        SI, TW = ("param", ps[0]), ("param", ps[2])
+        sh = _Shape(idx, fn, inline=True)
+        sends = [c for c in sh.calls if id(c[0]) not in sh.inlined and any(_mentions(x, SI) for x in c[3] + list(c[4].values()))
+                 and any(_mentions(x, TW) for x in c[3] + list(c[4].values()))]
+        if not sends:
+            r.violation(fn, fn.loc(), "%s hands its test-and-write vectors to no call that names the storage index: the test "
+                        "vectors do not reach the server" % short(fn))
+            continue
+        for (node, tail, recv, a, kw) in sends:
+            r.count(1)
+            carried = [(i, x) for i, x in enumerate(a) if _mentions(x, TW)] + [(k, x) for k, x in kw.items() if _mentions(x, TW)]
+            # which argument the far side reads its vectors from
+            if tail == "callRemote" and a and a[0] == ("const", REMOTE):
+                if wire.fool_param is None:
+                    raise AnalysisError("cannot tell which argument of remote_%s carries the vectors (see C12.17)" % REMOTE)
+                want, form = 1 + wire.fool_param, "tuple"
+            else:
+                g = wire.entry if tail == wire.entry.name else None
+                if g is None:
+                    r.violation(fn, fn.loc(node), "%s sends the vectors with %s(..), which is neither callRemote(%r, ..) nor %s" % (
+                        short(fn), tail, REMOTE, short(wire.entry)))
+                    continue
+                gps = first_positional_params(g)
+                if not wire.ok:
+                    raise AnalysisError("the HTTP hop behind %s is not intact (reported by C12.17)" % short(fn))
+                want, form = gps.index(wire.entry_param), "object"
+                if wire.entry_param in kw:
+                    want = wire.entry_param
+            v = dict(carried).get(want)
+            for (pos, x) in carried:
+                if pos != want:
+                    r.violation(fn, fn.loc(node), "%s passes data derived from the test-and-write vectors as argument %s of %s(..)" % (
+                        short(fn), pos, tail))
+            if v is None:
+                r.violation(fn, fn.loc(node), "%s does not pass the test-and-write vectors as argument %s of %s(..)" % (
+                    short(fn), want, tail))
+                continue
+            got = _per_share(sh, v, TW, "what %s sends" % short(fn))
+            if isinstance(got, str):
+                r.violation(fn, fn.loc(node), "%s: a share's test vector does not reach the server as the writer gave it" % got)
+                continue
+            val, pv = got
+            if form == "tuple":
+                if not (val[0] == "tuple" and len(val[1]) > _TESTV_SLOT):
+                    r.violation(fn, fn.loc(node), "%s sends %s per share, not a (test, write, new_length) tuple" % (
+                        short(fn), sh.describe(val)))
+                    continue
+                tv = val[1][_TESTV_SLOT]
+            else:
+                if not (val[0] == "obj"):
+                    r.violation(fn, fn.loc(node), "%s sends %s per share, not an object of http_client" % (short(fn), sh.describe(val)))
+                    continue
+                keys = _wire_keys(idx, _class_by_qual(idx, val[1]))
+                fl = [f for f, k in keys.items() if k == wire.test_key]
+                if len(fl) != 1:
+                    r.violation(fn, fn.loc(node), "no field of %s is sent under the key %r the handler reads the test vectors from" % (
+                        val[1], wire.test_key))
+                    continue
+                tv = dict(val[2])[fl[0]]
+            got = _vector_elements(sh, tv, _item(pv, _TESTV_SLOT), "the test vector %s sends" % short(fn))
+            if isinstance(got, str):
+                r.violation(fn, fn.loc(node), "%s: the server tests less than the writer asked for" % got)
+                continue
+            elt, e = got
+            for role in ("offset", "size", "specimen"):
+                wantv = _item(e, _CALLER_ROLES[role])
+                if form == "tuple":
+                    ok_shape = elt[0] == "tuple" and (cons["arity"] is None or len(elt[1]) == cons["arity"])
+                    x = _item(elt, cons[role]) if ok_shape else None
+                else:
+                    ok_shape = elt[0] == "obj" and role in wire.role_keys
+                    x = None
+                    if ok_shape:
+                        ek = _wire_keys(idx, _class_by_qual(idx, elt[1]))
+                        fl = [f for f, k in ek.items() if k == wire.role_keys[role]]
+                        x = dict(elt[2])[fl[0]] if len(fl) == 1 else None
+                if x is None:
+                    r.violation(fn, fn.loc(node), "%s sends test vector elements %s: cannot find the %s the server will use" % (
+                        short(fn), sh.describe(elt), "length" if role == "size" else role))
+                    break
+                if x != wantv:
+                    r.violation(fn, fn.loc(node), "%s sends the %s %s where the writer gave %s%s" % (
+                        short(fn), {"size": "length"}.get(role, role) + " of a test vector as", sh.describe(x), sh.describe(wantv),
+                        ": the server reads that many bytes for the comparison, so (0, 1, b'') - 'the share must not exist' - "
+                        "arrives as a test that any share passes" if role == "size" else ""))
+
+
+def _class_by_qual(idx, qual):
+    for ci in idx.classes.values():
+        if ci.qual == qual:
+            return ci
+    raise AnchorVanished("class %s" % qual)
